@@ -7,3 +7,6 @@ open Fzf.Props.C13
 #print axioms C13_count_consistent
 #print axioms C13_scan_all_or_nothing
 #print axioms C13_cancelled_publishes_nothing
+#print axioms C13_tail_snapshot_is_last_n
+#print axioms C13_changed_exact
+#print axioms C13_same_revision_same_items
